@@ -36,6 +36,15 @@ func profileFor(name string) *Profile {
 		p.Shadows = []string{"limitup"}
 		p.W["orbadmin"] = 14
 		p.PassW = []int{2, 3, 4, 3}
+	case "C03":
+		p.Special, p.SpecialReplay = specialC03, replayC03
+		p.Own["C14"] = false
+		p.Level = "fault_enumeration"
+	case "C05B":
+		p.Special, p.SpecialReplay = specialC05, replayC05
+		p.Own = map[string]bool{"C05": true}
+	case "C06":
+		p.Special, p.SpecialReplay = specialC06, replayC06
 	case "ALL":
 		p.Shadows = []string{"nomw", "nodust", "moredust", "pausediff", "actiondiff", "limitup"}
 	}
